@@ -152,7 +152,8 @@ class Gen:
         if k < 0.45 or r.random() < self.arith:
             op = self.pick(["+", "-", "*", "//", "%", "**", "+", "-", "*"])
             if op == "**":
-                return [A("bin"), op, self.ty(self.int, d - 1), c(r.randrange(0, 4))]
+                # small exponents only (value growth); sometimes a variable one so that a folded base meets a runtime `**`
+                return [A("bin"), op, self.ty(self.int, d - 1), c(r.randrange(0, 4)) if r.random() < 0.6 else n(self.pick(["j", "i"]))]
             return [A("bin"), op, self.ty(self.int, d - 1), self.ty(self.int, d - 1)]
         if k < 0.55:
             return [A("un"), self.pick(["-", "-", "+"]), self.ty(self.int, d - 1)]
